@@ -80,20 +80,23 @@ def _replay_failure(stage, h, res, log_path, jobs):
     Returns dict(confirmed, file, detail)."""
     detail = {"harness": h.name}
     try:
-        kanirun.run_group(stage.dir, [h], jobs=1, timeout_s=max(h.timeout, 300) * 2, stub=h.stub,
-                          cbmc_args=h.cbmc, solver=h.solver, log_path=log_path,
-                          playback="inplace", tag="pb_" + h.name)
+        pr = kanirun.run_group(stage.dir, [h], jobs=1, timeout_s=max(h.timeout, 300) * 2, stub=h.stub,
+                               cbmc_args=h.cbmc, solver=h.solver, log_path=log_path,
+                               playback="print", tag="pb_" + h.name)
     except kanirun.BuildError as e:
         detail["error"] = "playback run failed: %s" % str(e)[:300]
         return {"confirmed": False, "file": None, "detail": detail}
-    with open(stage.staged_harness(h.module)) as fh:
-        txt = fh.read()
-    gen = kanirun.extract_playback_tests(txt, h.name)
+    labels = [f["label"] for f in res["failed"]]
+    gen = kanirun.extract_playback_tests(pr["raw_out"], h.name, labels)
     if not gen:
         detail["error"] = "Kani produced no concrete playback test"
         return {"confirmed": False, "file": None, "detail": detail}
+    # print mode: add the tests to the end of the staged harness copy ourselves
+    # (inplace would put them inside macro bodies of slice families)
+    with open(stage.staged_harness(h.module), "a") as fh:
+        for tname, ttext in gen:
+            fh.write("\n" + ttext + "\n")
     nat = _playback_native(stage.dir, "kani_concrete_playback_%s_" % h.name, log_path)
-    labels = [f["label"] for f in res["failed"]]
     hit = None
     for tname, ttext in gen:
         t = nat["tests"].get(tname)
@@ -201,21 +204,31 @@ def run(prop, tier, seed, keep=False, only=None, jobs=16):
             return 2
         known = [k for k in _known() if k.get("property") == prop and k.get("status") == "open"]
         hmap = {h.name: h for h in hs}
-        for name, res in results.items():
+        replayed_sig = {}
+        for name, res in sorted(results.items()):
             h = hmap[name]
             if res["verdict"] == "pass":
                 continue
             if res["verdict"] == "inconclusive":
                 inconclusive.append("%s: %s" % (name, res["reason"]))
                 continue
-            # fail: replay natively before believing it
-            rp = _replay_failure(stage, h, res, log_path, jobs)
-            replays.append(rp)
+            labels = [f["label"] for f in res["failed"]]
+            sig = (h.family or h.name, tuple(sorted(labels)))
+            prev = replayed_sig.get(sig, [])
+            if len(prev) >= 2 and any(rp["confirmed"] for rp in prev):
+                # same obligation already replayed twice for this family: do not spend more time
+                first = [rp for rp in prev if rp["confirmed"]][0]
+                rp = {"confirmed": True, "file": first["file"],
+                      "detail": {"harness": name, "not_replayed": "same failed obligations as %s" % first["detail"]["harness"]}}
+            else:
+                # fail: replay natively before believing it
+                rp = _replay_failure(stage, h, res, log_path, jobs)
+                replayed_sig.setdefault(sig, []).append(rp)
+                replays.append(rp)
             if not rp["confirmed"]:
                 inconclusive.append("%s: counterexample did not reproduce natively (%s)" % (
                     name, json.dumps(rp["detail"])[:400]))
                 continue
-            labels = [f["label"] for f in res["failed"]]
             unlisted = [l for l in labels if not any(_kmatch(k, h, l) for k in known)]
             for l in labels:
                 for k in known:
